@@ -23,7 +23,12 @@ def run(tier):
     ck.nontrivial = sum(1 for g in groups if oc.nontrivial(*g))
     ck.note("scenarios", len(groups))
     ck.note("operators", sorted({g[0]["op"] for g in groups}))
-    ck.note("not_modelled_here", ["sequence_equal with an observable second argument (two-source runner, see C13 module)"])
+    _base_nontrivial = ck.nontrivial
+    # sequence_equal with an OBSERVABLE second argument: the two-lane model of OpsCombine.tla (all tie orders, 5 comparer codes)
+    from props import combine_common
+    se = combine_common.sequence_equal_observable(ck, tier, procs=1)
+    ck.note("sequence_equal_observable_form", se)
+    ck.nontrivial = _base_nontrivial + int(se.get("nontrivial", 0))
     for g in groups[:: max(1, len(groups) // 5)][:5]:
         ck.sample({"scn": g[0], "allowed": g[1]})
     ck.assumptions = ["exception types are compared, not messages", "numeric profile: token t is the number t"]
@@ -35,7 +40,7 @@ replay = oc.generic_replay
 
 META = {
     'technique': 'TLC-enumerated timelines x parameters of Ops1.tla aggregate transducers replayed on the real operators on TestScheduler',
-    'level': 'As C05 for the aggregate operators: value(s), terminal kind, exception type and emission instant (short-circuit at the deciding element, folds at completion) of every enumerated scenario are compared with the real operator, hot and cold. Exhaustive for the stated bounds.',
+    'level': 'As C05 for the aggregate operators (sequence_equal in both argument kinds: the iterable form in Ops1.tla, the observable form as a two-source model in OpsCombine.tla with every same-instant order): value(s), terminal kind, exception type and emission instant (short-circuit at the deciding element, folds at completion) of every enumerated scenario are compared with the real operator, hot and cold. Exhaustive for the stated bounds.',
     'note': 'TLC 1.8; codec; numeric aggregates on small integers',
     'ref': 'DESIGN.md 6 C06, App. C',
 }
